@@ -92,9 +92,9 @@ Qed.
 
 Inductive full : nat -> node -> Prop :=
 | full_empty h : full h Empty
-| full_leaf l : (1 <= l_n l)%N -> full 0 (Leaf l)
+| full_leaf l : (1 <= l_n l)%N -> ratio l -> full 0 (Leaf l)
 | full_tree h rm ch :
-    length ch = 8%nat -> Forall (full h) ch -> (1 <= lsum nleaves ch)%nat ->
+    length ch = 8%nat -> Forall (full h) ch -> (1 <= lsum nleaves ch)%nat -> ratio rm ->
     full (S h) (Tree (from_slice ch) rm ch).
 
 Fixpoint lookup (path : list nat) (n : node) : option leaf :=
@@ -111,7 +111,7 @@ Lemma full_wf n : forall h, full h n -> wf_node h n.
 Proof.
   induction n as [| l | i rm ch IH] using node_ind'; intros h Hf; inversion Hf; subst.
   - constructor.
-  - constructor. assumption.
+  - constructor; assumption.
   - apply mk_tree_wf; try assumption.
     match goal with H : Forall (full _) ch |- _ => rename H into Hall end.
     rewrite Forall_forall in *. intros c Hc. apply IH; [exact Hc|apply Hall, Hc].
@@ -150,21 +150,25 @@ Proof. destruct c as [[? ?] ?]. cbn. lia. Qed.
 
 Lemma insert_rec_full path : forall c n h,
   length path = h -> Forall (fun k => (k < 8)%nat) path -> full h n ->
+  rgb_ok c = true -> fits_bound (mass n + 1) ->
   exists n', insert_rec path c n = Ok n' /\ full h n' /\
     lookup path n' = Some (bump (lookup path n) c) /\
     (forall path', length path' = h -> path' <> path -> lookup path' n' = lookup path' n) /\
-    nleaves n' = (nleaves n + fresh (lookup path n))%nat.
+    nleaves n' = (nleaves n + fresh (lookup path n))%nat /\ mass n' = (mass n + 1)%N.
 Proof.
-  induction path as [|k rest IH]; intros c n h Hlen Hp Hf.
-  - cbn in Hlen. subst h. cbn [insert_rec]. inversion Hf; subst.
-    + eexists. split; [reflexivity|]. split; [constructor; apply leaf_of_pos|]. split; [reflexivity|].
-      split; [|reflexivity]. intros path' Hl Hn. destruct path'; [congruence|discriminate].
-    + eexists. split; [reflexivity|]. split; [constructor; apply leaf_add_pos|]. split; [reflexivity|].
-      split; [|reflexivity]. intros path' Hl Hn. destruct path'; [congruence|discriminate].
+  induction path as [|k rest IH]; intros c n h Hlen Hp Hf Hc Hfit.
+  - cbn in Hlen. subst h. cbn [insert_rec]. inversion Hf as [| l Hl1 Hlr |]; subst.
+    + eexists. split; [reflexivity|]. split; [constructor; [apply leaf_of_pos|apply ratio_of, Hc]|]. split; [reflexivity|].
+      split; [|split; [reflexivity|destruct c as [[? ?] ?]; reflexivity]].
+      intros path' Hl Hn. destruct path'; [congruence|discriminate].
+    + cbn [mass] in Hfit. rewrite (leaf_add_chk_ok l c (l_n l + 1) Hlr Hc ltac:(lia) Hfit). cbn [bind].
+      eexists. split; [reflexivity|]. split; [constructor; [apply leaf_add_pos|apply ratio_add; assumption]|]. split; [reflexivity|].
+      split; [|split; [reflexivity|cbn [mass]; apply leaf_add_n]].
+      intros path' Hl Hn. destruct path'; [congruence|discriminate].
   - cbn [length] in Hlen. destruct h as [|h]; [discriminate|]. injection Hlen as Hlen. subst h.
     inversion Hp as [|? ? Hk Hrest]; subst. cbn [insert_rec].
-    inversion Hf as [| |h' rm ch Hl Hall Hpos]; subst.
-    + destruct (IH c Empty (length rest) eq_refl Hrest (full_empty _)) as (n' & -> & Hf' & Hlk & Hoth & Hcnt).
+    inversion Hf as [| |h' rm ch Hl Hall Hpos Hrm]; subst.
+    + destruct (IH c Empty (length rest) eq_refl Hrest (full_empty _) Hc Hfit) as (n' & -> & Hf' & Hlk & Hoth & Hcnt & Hm').
       cbn [bind]. eexists. split; [reflexivity|].
       assert (Hk8 : (k < length empty8)%nat) by (cbn; lia).
       assert (Hn : nth k (set_at k n' empty8) Empty = n') by (unfold set_at; now rewrite map_at_nth_same).
@@ -174,10 +178,14 @@ Proof.
       cbv beta in Sl. replace (nth k empty8 Empty) with Empty in Sl
         by (do 8 (destruct k as [|k]; [reflexivity|]); cbn in Hk8; lia).
       cbn [nleaves] in Sl. replace (lsum nleaves empty8) with 0%nat in Sl by reflexivity.
+      pose proof (map_at_nsum mass (fun _ => n') empty8 k Hk8) as Sw. fold (set_at k n' empty8) in Sw. cbv beta in Sw.
+      replace (nth k empty8 Empty) with Empty in Sw
+        by (do 8 (destruct k as [|k]; [reflexivity|]); cbn in Hk8; lia).
+      replace (nsum mass empty8) with 0%N in Sw by reflexivity. cbn [mass] in Sw, Hm'.
       rewrite lookup_empty in *. cbn [fresh nleaves] in *.
-      split; [constructor; [now rewrite set_at_length|exact Hall'|lia]|].
+      split; [constructor; [now rewrite set_at_length|exact Hall'|lia|apply ratio_new]|].
       split; [cbn [lookup]; rewrite Hn; exact Hlk|].
-      split; [|cbn [nleaves]; lia].
+      split; [|split; [cbn [nleaves]; lia|rewrite mass_tree; cbn [mass leaf_new l_n]; lia]].
       intros path' Hl' Hne. destruct path' as [|k' rest']; [discriminate|]. cbn [lookup].
       destruct (Nat.eq_dec k' k) as [->|Hk'].
       * rewrite Hn. rewrite Hoth; [apply lookup_empty|cbn in Hl'; lia|congruence].
@@ -185,16 +193,20 @@ Proof.
         replace (nth k' empty8 Empty) with Empty; [apply lookup_empty|].
         do 8 (destruct k' as [|k']; [reflexivity|]). destruct k'; reflexivity.
     + pose proof (nth_Forall _ ch k Hall (full_empty _)) as Hfc.
-      destruct (IH c (nth k ch Empty) (length rest) eq_refl Hrest Hfc) as (n' & -> & Hf' & Hlk & Hoth & Hcnt).
+      pose proof (nsum_nth_le mass ch k) as Hmk. cbn [mass] in Hmk. rewrite mass_tree in Hfit.
+      assert (Hfb : fits_bound (mass (nth k ch Empty) + 1)) by (eapply fits_bound_mono; [|exact Hfit]; lia).
+      destruct (IH c (nth k ch Empty) (length rest) eq_refl Hrest Hfc Hc Hfb) as (n' & -> & Hf' & Hlk & Hoth & Hcnt & Hm').
       cbn [bind]. eexists. split; [reflexivity|].
       assert (Hk8 : (k < length ch)%nat) by lia.
       assert (Hn : nth k (set_at k n' ch) Empty = n') by (unfold set_at; now rewrite map_at_nth_same).
       assert (Hall' : Forall (full (length rest)) (set_at k n' ch)) by (apply map_at_Forall; assumption).
       pose proof (map_at_sum nleaves (fun _ => n') ch k Hk8) as Sl. fold (set_at k n' ch) in Sl.
-      cbv beta in Sl. cbn [lookup].
-      split; [constructor; [now rewrite set_at_length|exact Hall'|lia]|].
+      cbv beta in Sl.
+      pose proof (map_at_nsum mass (fun _ => n') ch k Hk8) as Sw. fold (set_at k n' ch) in Sw. cbv beta in Sw.
+      cbn [lookup].
+      split; [constructor; [now rewrite set_at_length|exact Hall'|lia|exact Hrm]|].
       split; [rewrite Hn; exact Hlk|].
-      split; [|cbn [nleaves]; lia].
+      split; [|split; [cbn [nleaves]; lia|rewrite !mass_tree; lia]].
       intros path' Hl' Hne. destruct path' as [|k' rest']; [discriminate|]. cbn [lookup].
       destruct (Nat.eq_dec k' k) as [->|Hk'].
       * rewrite Hn. apply Hoth; [cbn in Hl'; lia|congruence].
@@ -206,7 +218,8 @@ Qed.
 Record full_oc (t : octree) : Prop := mkFullOc {
   fo_len : length (o_children t) = 8%nat;
   fo_all : Forall (full 7) (o_children t);
-  fo_info : o_info t = from_slice (o_children t) }.
+  fo_info : o_info t = from_slice (o_children t);
+  fo_removed : ratio (o_removed t) }.
 
 Definition oc_lookup (path : list nat) (t : octree) : option leaf :=
   match path with
@@ -216,7 +229,7 @@ Definition oc_lookup (path : list nat) (t : octree) : option leaf :=
 
 Lemma full_oc_wf t : full_oc t -> wf_oc t.
 Proof.
-  intros [Hlen Hall Hinfo].
+  intros [Hlen Hall Hinfo Hrm].
   assert (Hw : Forall (wf_node 7) (o_children t)).
   { rewrite Forall_forall in *. intros c Hc. apply full_wf, Hall, Hc. }
   constructor; try assumption.
@@ -226,27 +239,32 @@ Qed.
 
 Lemma full_oc_exact t : full_oc t -> i_leaves (o_info t) = N.of_nat (lsum nleaves (o_children t)).
 Proof.
-  intros [Hlen Hall Hinfo]. rewrite Hinfo, from_slice_leaves. apply nsum_eq_lsum.
+  intros [Hlen Hall Hinfo Hrm]. rewrite Hinfo, from_slice_leaves. apply nsum_eq_lsum.
   rewrite Forall_forall in *. intros c Hc. eapply full_info_exact, Hall, Hc.
 Qed.
 
 Lemma oc_new_full : full_oc oc_new.
-Proof. constructor; cbn; try reflexivity. repeat constructor. Qed.
+Proof. constructor; cbn; try reflexivity; [repeat constructor|apply ratio_new]. Qed.
 
 Lemma oc_insert_full t c :
-  full_oc t -> rgb_ok c = true ->
+  full_oc t -> rgb_ok c = true -> fits_bound (oc_mass t + 1) ->
   exists t', oc_insert t c = Ok t' /\ full_oc t' /\
     oc_lookup (path_of c) t' = Some (bump (oc_lookup (path_of c) t) c) /\
     (forall path', length path' = 8%nat -> path' <> path_of c -> oc_lookup path' t' = oc_lookup path' t) /\
-    lsum nleaves (o_children t') = (lsum nleaves (o_children t) + fresh (oc_lookup (path_of c) t))%nat.
+    lsum nleaves (o_children t') = (lsum nleaves (o_children t) + fresh (oc_lookup (path_of c) t))%nat /\
+    oc_mass t' = (oc_mass t + 1)%N.
 Proof.
-  intros [Hlen Hall Hinfo] Hc. unfold oc_insert. rewrite (path_packed_eq c Hc). unfold path_of.
+  intros [Hlen Hall Hinfo Hrm] Hc Hfit. unfold oc_mass in *. unfold oc_insert. rewrite (path_packed_eq c Hc). unfold path_of.
   destruct (path_n_ok 8 c Hc) as [Hl Hf].
   destruct (path_n 8 c) as [|k rest]; [discriminate|].
   inversion Hf as [|? ? Hk Hrest]; subst. cbn [length] in Hl. injection Hl as Hl.
   pose proof (nth_Forall _ (o_children t) k Hall (full_empty _)) as Hfc.
-  destruct (insert_rec_full rest c (nth k (o_children t) Empty) 7 Hl Hrest Hfc)
-    as (n' & -> & Hf' & Hlk & Hoth & Hcnt).
+  pose proof (nsum_nth_le mass (o_children t) k) as Hmk. cbn [mass] in Hmk.
+  assert (Hfb : fits_bound (mass (nth k (o_children t) Empty) + 1)) by (eapply fits_bound_mono; [|exact Hfit]; lia).
+  destruct (insert_rec_full rest c (nth k (o_children t) Empty) 7 Hl Hrest Hfc Hc Hfb)
+    as (n' & -> & Hf' & Hlk & Hoth & Hcnt & Hm').
+  pose proof (map_at_nsum mass (fun _ => n') (o_children t) k ltac:(lia)) as Sw.
+  fold (set_at k n' (o_children t)) in Sw. cbv beta in Sw.
   cbn [bind]. eexists. split; [reflexivity|].
   assert (Hk8 : (k < length (o_children t))%nat) by lia.
   assert (Hn : nth k (set_at k n' (o_children t)) Empty = n') by (unfold set_at; now rewrite map_at_nth_same).
@@ -254,9 +272,9 @@ Proof.
   fold (set_at k n' (o_children t)) in Sl. cbv beta in Sl.
   pose proof (lsum_nth_le nleaves (o_children t) k) as Hnl. cbn [nleaves] in Hnl.
   cbn [oc_lookup o_children].
-  split; [constructor; cbn [o_children o_info]; [now rewrite set_at_length|apply map_at_Forall; assumption|reflexivity]|].
+  split; [constructor; cbn [o_children o_info o_removed]; [now rewrite set_at_length|apply map_at_Forall; assumption|reflexivity|exact Hrm]|].
   split; [rewrite Hn; exact Hlk|].
-  split; [|lia].
+  split; [|split; [lia|cbn [o_children o_removed]; lia]].
   intros path' Hl' Hne. destruct path' as [|k' rest']; [discriminate|]. cbn [oc_lookup o_children].
   destruct (Nat.eq_dec k' k) as [->|Hk'].
   - rewrite Hn. apply Hoth; [cbn in Hl'; lia|congruence].
@@ -312,18 +330,19 @@ Record holds (t : octree) (seen : list rgb) : Prop := mkHolds {
           | Some l => mem c seen = true /\ pure c l
           | None => mem c seen = false
           end;
-  h_count : lsum nleaves (o_children t) = length (nodup_rgb seen) }.
+  h_count : lsum nleaves (o_children t) = length (nodup_rgb seen);
+  h_mass : oc_mass t = N.of_nat (length seen) }.
 
 Lemma path_of_length c : rgb_ok c = true -> length (path_of c) = 8%nat.
 Proof. intros H. apply (path_n_ok 8 c H). Qed.
 
 Lemma holds_insert t seen c :
-  holds t seen -> rgb_ok c = true ->
+  holds t seen -> rgb_ok c = true -> fits_bound (N.of_nat (length seen) + 1) ->
   exists t', oc_insert t c = Ok t' /\ holds t' (c :: seen).
 Proof.
-  intros [Hf Hm Hc] Hok.
-  destruct (oc_insert_full t c Hf Hok) as (t' & Ht' & Hf' & Hlk & Hoth & Hcnt).
-  exists t'. split; [exact Ht'|]. constructor; [exact Hf'| |].
+  intros [Hf Hm Hc Hms] Hok Hfit. rewrite <- Hms in Hfit.
+  destruct (oc_insert_full t c Hf Hok Hfit) as (t' & Ht' & Hf' & Hlk & Hoth & Hcnt & Hms').
+  exists t'. split; [exact Ht'|]. constructor; [exact Hf'| | |rewrite Hms', Hms; cbn [length]; lia].
   - intros c' Hok'. destruct (rgb_eqb c' c) eqn:E.
     + apply rgb_eqb_eq in E. subst c'. rewrite Hlk. unfold mem. cbn [existsb].
       replace (rgb_eqb c c) with true by (symmetry; now apply rgb_eqb_eq). split; [reflexivity|].
@@ -343,19 +362,23 @@ Qed.
 
 Lemma holds_extend cs : forall t seen,
   holds t seen -> Forall (fun c => rgb_ok c = true) cs ->
+  fits_bound (N.of_nat (length seen) + N.of_nat (length cs)) ->
   exists t', oc_extend t cs = Ok t' /\ holds t' (rev cs ++ seen).
 Proof.
-  induction cs as [|c r IH]; intros t seen Hh Hok.
+  induction cs as [|c r IH]; intros t seen Hh Hok Hfit.
   - exists t. split; [reflexivity|exact Hh].
-  - inversion Hok as [|? ? Hc Hr]; subst. cbn [oc_extend].
-    destruct (holds_insert t seen c Hh Hc) as (t1 & -> & Hh1). cbn [bind].
-    destruct (IH t1 (c :: seen) Hh1 Hr) as (t' & -> & Hh'). exists t'. split; [reflexivity|].
+  - inversion Hok as [|? ? Hc Hr]; subst. cbn [oc_extend]. cbn [length] in Hfit.
+    assert (Hf1 : fits_bound (N.of_nat (length seen) + 1)) by (eapply fits_bound_mono; [|exact Hfit]; lia).
+    destruct (holds_insert t seen c Hh Hc Hf1) as (t1 & -> & Hh1). cbn [bind].
+    assert (Hf2 : fits_bound (N.of_nat (length (c :: seen)) + N.of_nat (length r)))
+      by (eapply fits_bound_mono; [|exact Hfit]; cbn [length]; lia).
+    destruct (IH t1 (c :: seen) Hh1 Hr Hf2) as (t' & -> & Hh'). exists t'. split; [reflexivity|].
     cbn [rev]. rewrite <- app_assoc. exact Hh'.
 Qed.
 
 Lemma holds_new : holds oc_new [].
 Proof.
-  constructor; [apply oc_new_full| |reflexivity].
+  constructor; [apply oc_new_full| |reflexivity|reflexivity].
   intros c Hok. unfold oc_lookup. destruct (path_of c) as [|k rest]; [reflexivity|].
   cbn [oc_new o_children]. replace (nth k empty8 Empty) with Empty.
   - now rewrite lookup_empty.
@@ -383,14 +406,14 @@ Qed.
 (* ---------- exactness of the octree pipeline ---------- *)
 
 Theorem palette_exact : forall (cs : list rgb) (k : N),
-  Forall (fun c => rgb_ok c = true) cs ->
+  Forall (fun c => rgb_ok c = true) cs -> (N.of_nat (length cs) <= max_pixels)%N ->
   (N.of_nat (length (nodup_rgb cs)) <= N.max k 8)%N ->
   exists t pal,
     oc_extend oc_new cs = Ok t /\ prune_until k t = Ok t /\ build_palette t = Ok pal /\
     forall c, In c cs -> In c pal.
 Proof.
-  intros cs k Hok Hfit.
-  destruct (holds_extend cs oc_new [] holds_new Hok) as (t & Ht & [Hf Hm Hc]).
+  intros cs k Hok Hmax Hfit.
+  destruct (holds_extend cs oc_new [] holds_new Hok (widths_adequate _ Hmax)) as (t & Ht & [Hf Hm Hc _]).
   rewrite app_nil_r in Hm, Hc.
   assert (Hlen : length (nodup_rgb (rev cs)) = length (nodup_rgb cs)).
   { apply Nat.le_antisymm; apply NoDup_incl_length; try apply nodup_rgb_NoDup; intros x Hx.
